@@ -8,6 +8,7 @@
    entry    eol a b free -> hex of the 20-byte line
    i64buf   i byteCount -> hex
    dec      n -> hex of the decimal text
+   evfl     h frees -> "ok:<sorted free numbers>" if the repaired list is one chain (+ dead entries), else "broken"
    undelete frees nr -> frees after UndeleteObject (input order, revived entry removed) + new generation
    freeobj  frees nr gen -> "nr:next:gen;..." after FreeObject, and whether the chain is still ok *)
 open Model
@@ -53,6 +54,13 @@ let dispatch fn args = match fn, args with
   | "freeobj", [frees; nr; gen] ->
       let l = free_object (List.map free_of (split ';' frees)) (n_of_hex nr) (n_of_hex gen) in
       String.concat ";" (List.map str_free l) ^ " " ^ str_of_bool (chain_ok l)
+  | "evfl", [h; frees] ->
+      (* canonical (Go map order is arbitrary): well-formedness of the result + the set of free entries *)
+      let fl = List.map free_of (split ';' frees) in
+      let ((h', c), d) = ensure_valid_free_list (n_of_hex h) fl in
+      let nrs = List.sort compare (List.map (fun e -> int_of_n e.e_nr) (c @ d)) in
+      let dead_ok = List.for_all (fun e -> int_of_n e.e_b = 65535 && int_of_n e.e_a = 0) d in
+      if pathb h' c N0 && dead_ok then "ok:" ^ String.concat "," (List.map string_of_int nrs) else "broken"
   | "undelete", [frees; nr] ->
       (match undelete_object (List.map free_of (split ';' frees)) (n_of_hex nr) with
        | None -> "err"
